@@ -83,6 +83,8 @@ int _mzd_pluq_solve_left(mzd_t const *A, rci_t rank, mzp_t const *P, mzp_t const
     mzd_t *Y2      = mzd_init_window(B, rank, 0, A->nrows, B->ncols);
     if (A->nrows < B->nrows) {
       mzd_t *Y3 = mzd_init_window(B, A->nrows, 0, B->nrows, B->ncols);
+      /* A is padded with zero rows: a non-zero padding row of B makes the system inconsistent */
+      if (!mzd_is_zero(Y3)) { retval = -1; }
       mzd_set_ui(Y3, 0);
       mzd_free_window(Y3);
     }
@@ -121,9 +123,10 @@ int _mzd_pluq_solve_left(mzd_t const *A, rci_t rank, mzp_t const *P, mzp_t const
 
 int _mzd_solve_left(mzd_t *A, mzd_t *B, int const cutoff, int const inconsistency_check) {
   if (inconsistency_check && B->nrows > A->nrows) {
-    mzd_t const *Bpad = mzd_init_window_const(B, A->nrows+1, 0, B->nrows, B->ncols);
-    if(!mzd_is_zero(Bpad)) return -1;
+    mzd_t const *Bpad = mzd_init_window_const(B, A->nrows, 0, B->nrows, B->ncols);
+    int const padzero = mzd_is_zero(Bpad);
     mzd_free_window((mzd_t *) Bpad);
+    if(!padzero) return -1;
   }
 
   /**
